@@ -154,7 +154,7 @@ def check_shapes(R):
         rank = len(shape)
         for kind in ("regular", "lazy", "lazy-last"):
             for i in range(-rank, rank):
-                for o in range(0, rank):
+                for o in range(-rank, rank):   # every position of the result, negative spellings included (D190 / D191 repaired)
                     for named in (False, True):
                         cases.append((shape, kind, i, o, named))
                         sd = {"regular": None, "lazy": 0, "lazy-last": rank - 1}[kind]
@@ -179,7 +179,7 @@ def check_shapes(R):
         base = progs.base_td(shape)
         bad = None
         for k in base.keys(True, True):
-            w = torch.movedim(base.get(k), i % rank, o)
+            w = torch.movedim(base.get(k), i % rank, o % rank)
             g = r.get(k)
             if g.shape != w.shape or not torch.equal(g, w):
                 bad = str(k)
@@ -193,7 +193,7 @@ def check_shapes(R):
             nm = [f"d{j}" for j in range(rank)]
             nm.pop(i % rank)
             want_names = list(nm)
-            want_names.insert(o, None)
+            want_names.insert(o % rank, None)
             have = list(r.names)
             if len(have) != len(r.batch_size) or any(h is not None and h != w for h, w in zip(have, want_names)):
                 R.oracle_fail("vmap-identity:names", case, {"have": have, "want_or_None": want_names}, dict(sig, what="names"))
@@ -387,7 +387,7 @@ def main(R):
                  "to batched values computes the function on every sample); torch's _add_batch_dim / _remove_batch_dim on a leaf are "
                  "transcribed (hide dim in_dim; re-insert at out_dim wrapped against the leaf rank + 1) and compared element by element"]
     R.assumptions = ["functorch's batching rules are trusted; a refusal by functorch to batch an op (exception) is counted, not judged",
-                     "out_dims are taken in 0..result rank (negative out_dims are outside the property's quantifier)",
+                     "out_dims name positions of the result, 0..rank or their negative spellings -(rank+1)..-1 (torch's rule)",
                      "module outputs are compared with allclose (float matmul), everything else exactly on integers"]
     R.step_prove()
     ok = R.step_driver()
